@@ -80,3 +80,10 @@ Definition cs_block (h : heap) (cb : nat) (values : val) (n : Z) (names props : 
 (* a table slice at block tb: table metadata, number of columns, columns array, owned flag *)
 Definition ts_block (h : heap) (tb : nat) (meta : val) (n : Z) (cols : val) (owned : Z) : Prop :=
   nth_error h tb = Some (Some [meta; VInt n; cols; VInt owned]).
+
+
+Lemma cell_set_other h b i v h' c : cell_set h b i v = Some h' -> b <> c -> nth_error h' c = nth_error h c.
+Proof.
+  unfold cell_set. destruct (nth_error h b) as [[blk|]|]; try discriminate. destruct (0 <=? i); [|discriminate].
+  destruct (set_nth_v (Z.to_nat i) v blk); [|discriminate]. intros E Hn. apply (set_nth_v_other h b c _ h' E Hn).
+Qed.
